@@ -408,8 +408,16 @@ func (w *fwalk) run() {
 				w.add("R6", "", "malformed Emit range [%d,%d) with %d expressions", e.Range.Start, e.Range.End, w.n)
 				return
 			}
+			needs := e.Range.Start == e.Range.End
 			for h := e.Range.Start; h < e.Range.End; h++ {
 				w.covered[h]++
+				if k := fn.Expressions[h].Kind; k != nil && !isPreEmit(k) && !isResult(k) {
+					needs = true
+				}
+			}
+			if !needs {
+				// a range that evaluates nothing at all: the clean-up of folded statements (DeduplicateEmits) removes these
+				w.add("R6", "", "Emit range covers only pre-emitted expressions (nothing to evaluate)")
 			}
 			return
 		}
